@@ -138,6 +138,47 @@ def run_case(case: dict) -> dict:
                 bad = {"what": "the state and rates of a result reported as a successful steady state cannot be read", "error": traceback.format_exc()[-500:]}
             if bad:
                 viols.append(core.viol(bad.pop("what"), None, net=net.to_json(), y0=y0, tolerance=tol, rel_norm=rel, parameters=params_now, **bad))
+        r_near = core.rng_for(case["seed"] + ":near")
+        if r_near.random() < 0.4:
+            # a slowly relaxing network started close to, but not at, its steady state: the derivatives at the start are below
+            # the tolerance although the state still has tens of tolerances to go. Whatever is reported as steady must meet the
+            # search's own criterion: carried on exactly (matrix exponential) for one more check step of 100, it changes by
+            # less than the tolerance (compared to 10 tolerances)
+            from scipy.linalg import expm
+
+            slow = {k_: v_ * 0.01 for k_, v_ in net.params.items()}
+            tol_n = r_near.choice([1e-6, 1e-5])
+            A_, _b = net.Ab(slow)
+            ystar = net.steady(slow)
+            ev, evec = np.linalg.eig(A_)
+            w = np.real(evec[:, int(np.argmax(ev.real))])
+            if np.linalg.norm(A_ @ w) > 0:
+                d = 0.5 * tol_n * w / np.linalg.norm(A_ @ w)
+                if min(ystar[v] + d[i] for i, v in enumerate(net.variables)) < 0:
+                    d = -d
+                y0n = {v: float(ystar[v] + d[i]) for i, v in enumerate(net.variables)}
+                m_n = rm.build(net.spec())
+                m_n.update_parameters(slow)
+                how = r_near.choice(["y0", "update_variables"])
+                if how == "y0":
+                    sim_n = Simulator(m_n, y0=y0n)
+                else:
+                    sim_n = Simulator(m_n)
+                    sim_n.update_variables(y0n)
+                sim_n.simulate_to_steady_state(tolerance=tol_n, rel_norm=False)
+                res_n = sim_n.get_result().value
+                counters["near_start:searches"] = 1
+                if isinstance(res_n, Exception):
+                    counters["near_start:reported_failure(acceptable)"] = 1
+                else:
+                    yn = res_n.get_variables(include_derived_variables=False, include_readouts=False, include_surrogate_variables=False).iloc[-1]
+                    off = np.array([float(yn[v]) - ystar[v] for v in net.variables])
+                    change = float(np.linalg.norm((expm(100.0 * A_) - np.eye(len(off))) @ off))
+                    counters["near_start:success_compared"] = 1
+                    nontrivial = True
+                    if change > 10 * tol_n:
+                        viols.append(core.viol("a state reported as steady still changes by more than ten tolerances over the search's own check step", None, net=net.to_json(), parameters=slow,
+                                               start=y0n, reported={v: float(yn[v]) for v in net.variables}, analytic_steady_state=ystar, change_over_next_100=change, tolerance=tol_n, start_given_by=how))
         if first is not None:
             # read only now, after the model moved on: state and rates of the earlier result belong to the earlier parameters
             try:
